@@ -219,7 +219,8 @@ def run(c):
         return "{" + ", ".join('"%s"' % x for x in xs) + "}"
     big = dict(K=["k1", "k2"], I=["i1", "i2", "i3"], A=["a1", "a2"])
     small = dict(K=["k1"], I=["i1", "i2"], A=["a1"])       # fewer names, longer histories (lapse -> re-register -> resume, rekey)
-    gens = [dict(big, depth=5, maxt=3, lifes="{1, 2}"), dict(small, depth=8, maxt=4, lifes="{1, 2}")]
+    # quick keeps the tier within ~4 min on an idle machine: depth 4 on the big instance (depth 5/6 in thorough)
+    gens = [dict(big, depth=4, maxt=3, lifes="{1, 2}"), dict(small, depth=8, maxt=4, lifes="{1, 2}")]
     if thorough:
         gens = [dict(big, depth=6, maxt=3, lifes="{1, 2}"), dict(small, depth=11, maxt=4, lifes="{1, 2, 3}")]
     total = 0
@@ -271,41 +272,49 @@ def run(c):
     c.cov["distinct_nontrivial"] = len(nontrivial)
     c.cov["replay_stats"] = stats
 
-    # ---- 2b. the real TunnelGateway loop over loopback UDP (real time; >= 5 s from the expiry instant) ------
+    # ---- 2b. the real TunnelGateway loop over loopback UDP (real time) -------------------------------------
+    # Robust against slow machines: the harness attributes every observation by content (unique tag per datagram)
+    # and timestamp; only observations that are unambiguous under any scheduling are violations (a datagram sent
+    # >= 5 s after the expiry and dispatched before the re-registration started; anything sent after the
+    # supersession).  Missing or late positive observations and any failure of the run itself are drift.
     gout = os.path.join(c.work, "gateway.json")
-    rc, so = c.sh([binp, "gateway", gout], timeout=600)
-    if rc != 0:
+    rc, so = c.sh([binp, "gateway", gout], timeout=1800)
+    if rc != 0 or not os.path.exists(gout):
         c.drift("gateway loop run failed rc=%s %s" % (rc, (so or "")[-300:]))
     else:
         g = json.load(open(gout))
-        for x in g["log"]:
-            if "replies" in x:   # WireGuard keepalives (empty payload) and timer-driven handshake messages are not payloads
-                x["replies"] = [rp for rp in x["replies"] if rp.get("len", 0) > 0]
         steps = {x["step"]: x for x in g["log"]}
-        c.cov["gateway_loop"] = g["log"]
-        for name in ("register", "reregister", "supersede"):
-            if steps.get(name, {}).get("status") != 200:
-                c.drift("gateway loop: control-plane registration '%s' answered %s" % (name, steps.get(name, {}).get("status")))
-        if g["authorised_phase_done_at_s"] > g["life"] - 6:
-            c.drift("gateway loop: machine too slow (authorised phase took %.1fs), positive expectations not judged" % g["authorised_phase_done_at_s"])
+        c.cov["gateway_loop"] = g
+        for name, st in g["statuses"].items():
+            if st != 200:
+                c.drift("gateway loop: control-plane registration '%s' answered %s" % (name, st))
+        if not g["handshake"]:
+            c.drift("gateway loop: the WireGuard handshake did not complete (busy machine?); positive expectations not judged")
+        if g["stray"]:
+            c.drift("gateway loop: payloads reached the client that belong to no step: %s" % g["stray"][:3])
         for phase, what in (("lapsed", "lapse"), ("superseded", "supersession")):
-            x = steps.get("%s:good" % phase)
-            if x and x["dispatched"]:
-                c.violation("gateway:flow-after-%s:in" % what, "real gateway loop dispatched a tunnelled datagram after the %s of the registration" % what, g)
-            if x and x["replies"]:
-                c.violation("gateway:flow-after-%s:reply" % what, "real gateway loop sent %s towards the client after the %s" % (json.dumps(x["replies"]), what), g)
-            y = steps.get("%s:outbound" % phase)
-            if y and y["delivered"]:
-                c.violation("gateway:flow-after-%s:out" % what, "real gateway loop encrypted an outbound packet towards the client after the %s" % what, g)
-        if g["authorised_phase_done_at_s"] <= g["life"] - 6:
-            for name in ("authorised:good", "reregistered:good"):
+            for name in ("%s:good" % phase, "%s:spoofed-source" % phase):
                 x = steps.get(name)
-                if not x or x["dispatched"] != 1 or not x["intact"]:
-                    c.drift("gateway loop: %s was not dispatched exactly once intact: %s" % (name, json.dumps(x)))
-            for name in ("authorised:outbound", "reregistered:outbound"):
-                y = steps.get(name)
-                if not y or y["delivered"] != 1 or not y["intact"]:
-                    c.drift("gateway loop: %s did not reach the client exactly once intact: %s" % (name, json.dumps(y)))
+                if not x:
+                    continue
+                if x["dispatched_counted"]:
+                    c.violation("gateway:flow-after-%s:in" % what, "real gateway loop dispatched a tunnelled datagram (%s) after the %s of the registration" % (name, what), g)
+                if [rp for rp in x["replies"] if rp["counted"]]:
+                    c.violation("gateway:flow-after-%s:reply" % what, "real gateway loop answered %s towards the client after the %s: %s" % (name, what, json.dumps(x["replies"])), g)
+            y = steps.get("%s:outbound" % phase)
+            if y and y["delivered_counted"]:
+                c.violation("gateway:flow-after-%s:out" % what, "real gateway loop encrypted an outbound packet towards the client after the %s" % what, g)
+        ok_phase = {"authorised": g["handshake"] and g["authorised_phase_done_at_s"] <= g["life"] - 6,
+                    "reregistered": g["handshake"] and g["reregistered_phase_took_s"] <= g["life"] - 6}
+        for ph, ok in ok_phase.items():
+            if not ok:
+                c.drift("gateway loop: %s phase too slow on this machine, positive expectations not judged" % ph)
+                continue
+            x, y = steps.get("%s:good" % ph), steps.get("%s:outbound" % ph)
+            if not x or x["dispatched"] != 1:
+                c.drift("gateway loop: %s:good was not dispatched exactly once: %s" % (ph, json.dumps(x)))
+            if not y or y["delivered"] != 1:
+                c.drift("gateway loop: %s:outbound did not reach the client exactly once: %s" % (ph, json.dumps(y)))
         c.cov["evaluations"] += len(g["log"])
 
     # ---- 3. record -> Trace_SnapTunnel -----------------------------------------------------------------
